@@ -91,6 +91,19 @@ Section Loop.
         constructor; [exact Emk | eapply IH; exact Erec].
   Qed.
 
+  (* every selected utxo is one of the reported ones *)
+  Lemma select_subset : forall us target acc sel tot,
+      select sat_of mk us target acc = Ok (sel, tot) -> forall ut, In ut sel -> In (fst ut) us.
+  Proof.
+    induction us as [|u rest IH]; intros target acc sel tot H ut Hin.
+    - cbn [select] in H. injection H as <- <-. contradiction.
+    - cbn [select] in H. apply bind_ok in H as (s & _ & H). apply bind_ok in H as (t & Emk & H).
+      destruct (acc + s >=? target).
+      + injection H as <- <-. destruct Hin as [<-|[]]. left; reflexivity.
+      + apply bind_ok in H as ([sel' tot'] & Erec & H). cbn beta iota in H. injection H as <- <-.
+        destruct Hin as [<-|Hin]; [left; reflexivity | right; eapply IH; eauto].
+  Qed.
+
   (* the loop never fails for another reason than the conversion or [mk] *)
   Lemma select_total us target acc :
     (forall u, In u us -> exists s, sat_of u = Ok s) -> (forall u, In u us -> exists t, mk u = Ok t) ->
